@@ -188,9 +188,9 @@ def degreeHeightFixed (cycle epochOffset periodOffset : Nat) : Outcome Nat :=
         SUBSIDY_HALVING_INTERVAL) + epochOffset))
 
 /-- the code as it is (`fixed = false`) or with the repair applied (`fixed = true`) -/
-def degreeHeightWith (fixed : Bool) (cycle epochOffset periodOffset : Nat) : Outcome Nat :=
-  if fixed then degreeHeightFixed cycle epochOffset periodOffset
-  else degreeHeight cycle epochOffset periodOffset
+def degreeHeightWith : Bool → Nat → Nat → Nat → Outcome Nat
+  | true => degreeHeightFixed
+  | false => degreeHeight
 
 /-- the tail of `from_degree`: optional `‴` part, trailing characters, block offset -/
 def degreeTail (height : Nat) (rest : List Char) : Outcome Nat :=
@@ -254,7 +254,9 @@ def fromPercentileWith (fixed : Bool) (cs : List Char) (fc : FloatClass) : Outco
       else .ok 0            -- both comparisons false, `NaN as u64` = 0
     | .neg => .err "Percentile"
     | .over => .err "Percentile"
-    | .inRange n => .ok n
+    | .inRange n =>
+      -- `over` is exactly `n > last`, so the harness can only report an in-range `n`
+      if n > LAST then .err "model:float-class-inconsistent" else .ok n
 
 /-- the final arm of `Sat::from_str` -/
 def fromInteger (cs : List Char) : Outcome Nat :=
